@@ -207,8 +207,11 @@ def end_to_end(ctx):
     from vlib import store, hist
     stats = {'runs': 0, 'second_run_transfers': 0}
     provs = uc.PROVIDERS if ctx.tier == 'thorough' else [uc.PROVIDERS[ctx.seed % 3], uc.PROVIDERS[(ctx.seed + 1) % 3]]
-    for idx, prov in enumerate(provs):
-        for page in ([1] if ctx.tier == 'quick' else [1, 2, 7]):
+    plan = [(idx, prov, page, None) for idx, prov in enumerate(provs) for page in ([1] if ctx.tier == 'quick' else [1, 2, 7])]
+    # a damaged local backup (unreadable manifest): local verification fails, so nothing may be deleted in the cloud
+    plan += [(len(provs) + i, prov, 2, 'local-corrupt') for i, prov in enumerate(provs[:1] if ctx.tier == 'quick' else provs)]
+    for idx, prov, page, special in plan:
+        if True:
             rng = random.Random(ctx.seed * 31 + idx * 7 + page)
             e = uc.E2E(ctx, 700 + idx * 10 + page, prov, 'sync pass', nbackups=2, file_sizes=(10, 3000), stage_options=['--page-size', str(page)])
             try:
@@ -225,7 +228,25 @@ def end_to_end(ctx):
                 ns = e.stage.emu.namespace(prov)
                 ns.mkdir(e.CLOUD_ROOT + '/1999.01.01')
                 ns.put_file(e.CLOUD_ROOT + '/1999.01.01/1999.01.01-00:00:00.tar.gpg', b'an old cloud backup')
-                stray = (idx + page + ctx.seed) % 2 == 1
+                stray = (idx + page + ctx.seed) % 2 == 1 and not special
+                if special == 'local-corrupt':
+                    lg = sorted(g for g in os.listdir(e.w.root) if store.GROUP_RE.match(g))[-1]
+                    lb = sorted(b for b in os.listdir(os.path.join(e.w.root, lg)) if store.BACKUP_RE.match(b))[-1]
+                    mp = os.path.join(e.w.root, lg, lb, 'metadata.zst')
+                    raw = open(mp, 'rb').read()
+                    open(mp, 'wb').write(raw[:max(1, len(raw) // 2)])
+                    uc.emu.pe.save_namespace(e.stage.dir, ns)
+                    e.stage.emu.reload()
+                    o1 = e.upload()
+                    case = {'provider': prov, 'page_size': page, 'special': special}
+                    stats['runs'] += 1
+                    stats['local_corrupt'] = stats.get('local_corrupt', 0) + 1
+                    if not o1['run'].errors():
+                        ctx.violation('property', 'a local backup with an unreadable manifest is not reported [%s]' % prov, {'case': case})
+                    if not any(k.startswith('1999.01.01/1999.01.01-') for k in o1['cloud']):
+                        ctx.violation('property', 'the cloud group 1999.01.01 was deleted although local verification reported an error (%s) [%s]'
+                                      % (o1['run'].errors()[:1], prov), {'case': case})
+                    continue
                 if not stray:
                     # the leftover of an interrupted upload: a temporary object for the newest local backup in its (window)
                     # group; it is not a backup, so that backup must still be uploaded
